@@ -2,6 +2,7 @@ package c15
 
 import (
 	"fmt"
+	"github.com/go-kid/ioc"
 	"math"
 	"os"
 	"path/filepath"
@@ -9,6 +10,7 @@ import (
 	"sort"
 	"strings"
 	"testing"
+	"time"
 
 	"github.com/go-kid/ioc/app"
 	"github.com/go-kid/ioc/configure"
@@ -680,5 +682,86 @@ func TestOrderedLoaders(t *testing.T) {
 			}
 		}
 		kit.Rec.Case(desc, n >= 2, map[bool]string{true: "ordered-loaders-extreme-orders", false: "ordered-loaders"}[extreme])
+	})
+}
+
+// ---- two containers started through ioc.Run whose start-ups overlap -------------------------------------------------
+
+type regDummy struct{ N int }
+
+func (r *regDummy) Naming() string { return fmt.Sprintf("registered-dummy-%d", r.N) }
+
+var regCount int
+
+// TestOverlappingIocRuns (own process, VERIF_GLOBAL_SETTINGS=1: ioc.Register is process-wide): components are
+// registered through ioc.Register, then two containers are started through ioc.Run so that the first is still applying
+// its options while the second one starts and finishes. Each container ends up with exactly the sources its own
+// options configured.
+func TestOverlappingIocRuns(t *testing.T) {
+	if os.Getenv("VERIF_GLOBAL_SETTINGS") != "1" {
+		t.Skip("changes process-wide registrations: runs in a process of its own")
+	}
+	kit.Rec.Rule(rule)
+	rapid.Check(t, func(t *rapid.T) {
+		nreg := rapid.IntRange(0, 3).Draw(t, "registrations")
+		for i := 0; i < nreg; i++ {
+			regCount++
+			ioc.Register(&regDummy{N: regCount}) // accumulates over the cases of this process: 0, 1, 2, 3, ... registrations so far
+		}
+		va, vb := rapid.IntRange(1, 99).Draw(t, "a"), rapid.IntRange(100, 199).Draw(t, "b")
+		extraA := rapid.IntRange(0, 2).Draw(t, "extraoptsa")
+		saved := os.Args
+		os.Args = saved[:1]
+		defer func() { os.Args = saved }()
+		bDone := make(chan struct{})
+		aEntered := make(chan struct{})
+		optsA := []app.SettingOption{func(*app.App) { close(aEntered); <-bDone }}
+		optsA = append(optsA, app.AddConfigLoader(loader.NewRawLoader([]byte(fmt.Sprintf("c15i:\n  shared: %d\n  onlya: %d\n", va, va)))))
+		for i := 0; i < extraA; i++ {
+			optsA = append(optsA, app.AddConfigLoader(loader.NewRawLoader([]byte(fmt.Sprintf("c15i:\n  extra%d: %d\n", i, va)))))
+		}
+		type res struct {
+			a   *app.App
+			err error
+		}
+		ra := make(chan res, 1)
+		go func() {
+			a, err := ioc.Run(optsA...)
+			ra <- res{a, err}
+		}()
+		select {
+		case <-aEntered:
+		case <-time.After(20 * time.Second):
+			t.Fatalf("C15: container A did not start applying its options within 20s")
+		}
+		var optsB []app.SettingOption
+		for i := rapid.IntRange(0, 2).Draw(t, "leadingoptsb"); i > 0; i-- {
+			optsB = append(optsB, func(*app.App) {})
+		}
+		optsB = append(optsB, app.AddConfigLoader(loader.NewRawLoader([]byte(fmt.Sprintf("c15i:\n  shared: %d\n  onlyb: %d\n", vb, vb)))))
+		b, errB := ioc.Run(optsB...)
+		close(bDone)
+		var a res
+		select {
+		case a = <-ra:
+		case <-time.After(20 * time.Second):
+			t.Fatalf("C15: container A did not finish within 20s")
+		}
+		if errB != nil || a.err != nil {
+			t.Fatalf("C15: overlapping ioc.Run: A %v, B %v", a.err, errB)
+		}
+		desc := fmt.Sprintf("overlapping ioc.Run: A{shared=%d,onlya,+%d} B{shared=%d,onlyb}", va, extraA, vb)
+		if got := canon(a.a.Get("c15i.shared")); got != int64(va) || canon(a.a.Get("c15i.onlya")) != int64(va) || a.a.Get("c15i.onlyb") != nil {
+			t.Fatalf("C15: %s: container A reads shared=%v onlya=%v onlyb=%v (its own options configured shared=%d onlya=%d and no onlyb)", desc, a.a.Get("c15i.shared"), a.a.Get("c15i.onlya"), a.a.Get("c15i.onlyb"), va, va)
+		}
+		for i := 0; i < extraA; i++ {
+			if canon(a.a.Get(fmt.Sprintf("c15i.extra%d", i))) != int64(va) {
+				t.Fatalf("C15: %s: container A lost the source that supplies extra%d", desc, i)
+			}
+		}
+		if got := canon(b.Get("c15i.shared")); got != int64(vb) || canon(b.Get("c15i.onlyb")) != int64(vb) || b.Get("c15i.onlya") != nil {
+			t.Fatalf("C15: %s: container B reads shared=%v onlyb=%v onlya=%v", desc, b.Get("c15i.shared"), b.Get("c15i.onlyb"), b.Get("c15i.onlya"))
+		}
+		kit.Rec.Case(desc, true, "overlapping-ioc-run")
 	})
 }
